@@ -517,6 +517,10 @@ def run_property(prop, mod, tier, seed):
                     continue
                 pc["failures"] += 1
                 failures.append(rec)
+    post = getattr(mod, "post_failures", None)
+    post_info = {}
+    if post:
+        failures, post_info = post(failures, units, results)
     # ---- triage failures
     known = load_known(prop)
     known_hit, new_fail = {}, []
@@ -572,6 +576,7 @@ def run_property(prop, mod, tier, seed):
     extra = getattr(mod, "evidence_extra", None)
     if extra:
         cov.update(extra(tier, seed))
+    cov.update(post_info)
     ev = dict(property_id=prop, tier=tier, seed=int(seed), level="exploration", coverage=cov,
               assumptions=list(mod.ASSUMPTIONS), wall_s=round(wall, 2), violations=len(violations))
     os.makedirs(os.path.join(VERIF, "evidence"), exist_ok=True)
